@@ -383,3 +383,141 @@ def check_program(prog, asm, trials, seed):
             if not (m.x[2] - 4096 <= addr < m.x[2]):
                 return False, f"store outside the function's own frame at {addr:#x}"
     return True, ""
+
+
+# ---------------------------------------------------------------------------------------------------- float constants
+# Case {"ty": "f64"|"f32", "consts": [bit patterns], "arg": bits | None}:  f(arg?) = (arg +) c0 + c1 + ...
+# (one constant and no arg: the constant is returned as is).  Oracle: the bit pattern in fa0.
+F64_BOUNDARY = [0x0, 0x8000000000000000, 0x3FF0000000000000, 0xBFF0000000000000, 0x3FF8000000000000,
+                0x41E0000000000000,            # 2^31
+                0x41DFFFFFFFC00000,            # 2^31 - 1
+                0xC1E0000000000000,            # -2^31
+                0xC1E0000000200000,            # -2^31 - 1
+                0x41E0000000100000,            # 2^31 + 0.5
+                0x41E65A0BC0000000,            # 3000000000
+                0x41EFFFFFFFE00000,            # 2^32 - 1
+                0x41F0000000000000,            # 2^32
+                0x4340000000000000,            # 2^53
+                0x4340000000000001,            # 2^53 + 2
+                0x7E37E43C8800759C,            # 1e300
+                0x0000000000000001,            # smallest denormal
+                0x7FF0000000000000, 0xFFF0000000000000,      # +-inf
+                0x7FF8000000000000, 0x7FF8000000000001, 0xFFF8000000000000]   # quiet NaNs (payload, sign)
+F32_BOUNDARY = [0x0, 0x80000000, 0x3F800000, 0xBF800000, 0x3FC00000, 0x4B800000, 0x4B7FFFFF, 0x4F000000, 0xCF000000,
+                0x4F800000, 0x7F7FFFFF, 0x00000001, 0x7F800000, 0xFF800000, 0x7FC00000, 0x7FC00001, 0xFFC00000]
+
+
+def _is_nan(ty, b):
+    if ty == "f64":
+        return (b >> 52) & 0x7FF == 0x7FF and b & ((1 << 52) - 1) != 0
+    return (b >> 23) & 0xFF == 0xFF and b & ((1 << 23) - 1) != 0
+
+
+def gen_float_case(rng):
+    ty = rng.choice(["f64", "f64", "f32"])
+    pool = F64_BOUNDARY if ty == "f64" else F32_BOUNDARY
+
+    def val(allow_nan):
+        if rng.random() < 0.75:
+            b = rng.choice(pool)
+        elif ty == "f64":
+            b = rv.d2bits(float(rng.randint(-(1 << 33), 1 << 33)) + rng.choice([0.0, 0.0, 0.5, 0.25]))
+        else:
+            b = rv.round_s(float(rng.randint(-(1 << 26), 1 << 26)) / rng.choice([1, 2, 8]))
+        if not allow_nan and _is_nan(ty, b):
+            b = pool[2]
+        return b
+    shape = rng.random()
+    if shape < 0.55:
+        return {"ty": ty, "consts": [val(True)], "arg": None}
+    if shape < 0.8:
+        return {"ty": ty, "consts": [val(False), val(False)], "arg": None}
+    return {"ty": ty, "consts": [val(False)], "arg": val(False)}
+
+
+def float_expected(case):
+    """bit pattern of the result by IEEE-754 arithmetic, None if it is a NaN produced by an addition
+    (inf + -inf: the payload is not specified by the source semantics)"""
+    ty, cs = case["ty"], case["consts"]
+    if len(cs) == 1 and case["arg"] is None:
+        return cs[0]
+    if ty == "f64":
+        acc = rv.bits2d(cs[0])
+        for c in cs[1:]:
+            acc = acc + rv.bits2d(c)
+        if case["arg"] is not None:
+            acc = rv.bits2d(case["arg"]) + acc
+        return None if acc != acc else rv.d2bits(acc)
+    acc = rv.bits2s(cs[0])
+    for c in cs[1:]:
+        acc = rv.bits2s(rv.round_s(acc + rv.bits2s(c)))
+    if case["arg"] is not None:
+        acc = rv.bits2s(rv.round_s(rv.bits2s(case["arg"]) + acc))
+    return None if acc != acc else rv.round_s(acc)
+
+
+def build_float_module(case):
+    from xdsl.dialects import arith, builtin, func
+    from xdsl.dialects.builtin import FloatAttr, f32, f64
+    from xdsl.ir import Block, Region
+    ty = f64 if case["ty"] == "f64" else f32
+    tof = rv.bits2d if case["ty"] == "f64" else rv.bits2s
+    blk = Block(arg_types=[ty] if case["arg"] is not None else [])
+    cs = [arith.ConstantOp(FloatAttr(tof(b), ty)) for b in case["consts"]]
+    for c in cs:
+        blk.add_op(c)
+    cur = cs[0].result
+    for c in cs[1:]:
+        a = arith.AddfOp(cur, c.result)
+        blk.add_op(a)
+        cur = a.result
+    if case["arg"] is not None:
+        a = arith.AddfOp(blk.args[0], cur)
+        blk.add_op(a)
+        cur = a.result
+    blk.add_op(func.ReturnOp(cur))
+    f = func.FuncOp("f", ((ty,) if case["arg"] is not None else (), (ty,)), Region(blk))
+    return builtin.ModuleOp([f])
+
+
+def run_float_case(case, passes=None):
+    """-> ["ok"] | ["skip", why] | ["fail", why] | ["raise", code, pass, message]"""
+    from xdsl.dialects.riscv import riscv_code
+    want = float_expected(case)
+    if want is None:
+        return ["skip", "NaN produced by an addition"]
+    ctx = _ctx()
+    module = build_float_module(case)
+    module.verify()
+    for p in (passes or pipeline_passes()):
+        try:
+            p.apply(ctx, module)
+            module.verify()
+        except NotImplementedError as e:
+            return ["skip", f"unsupported: {p.name}: {e}"[:100]]
+        except BaseException as e:
+            return ["raise", exc_code(e), p.name, f"{type(e).__name__}: {e}"[:160]]
+    asm = riscv_code(module)
+    for seed in range(2):
+        r = random.Random(seed)
+        x = [r.getrandbits(32) for _ in range(32)]
+        f = [r.getrandbits(64) for _ in range(32)]
+        x[0], x[1], x[2] = 0, RA_SENTINEL, STACK_TOP - 16 * r.randint(0, 64)
+        if case["arg"] is not None:
+            f[10] = case["arg"] if case["ty"] == "f64" else (rv.BOX | case["arg"])
+        m = rv.Machine(x, f, {})
+        x0, f0 = list(m.x), list(m.f)
+        try:
+            rv.run_asm(asm, "f", m)
+        except rv.AsmError as e:
+            return ["skip", f"reference machine: {e}"]
+        except rv.AsmInvalid as e:
+            return ["fail", f"emitted assembly is not encodable: {e}"]
+        got = m.f[10] if case["ty"] == "f64" else rv.unbox(m.f[10])
+        if got != want:
+            return ["fail", f"{case['ty']} result has bits {got:#x}, the source denotes {want:#x} "
+                            f"(constants {[hex(c) for c in case['consts']]}, argument {case['arg']})"]
+        if m.x[2] != x0[2] or any(m.x[i] != x0[i] for i in rv.CALLEE_SAVED_X) or \
+                any(m.f[i] != f0[i] for i in rv.CALLEE_SAVED_F):
+            return ["fail", "sp or a callee-saved register is not restored"]
+    return ["ok"]
